@@ -20,7 +20,7 @@ from vlib import core, rscope, srcgen
 
 PID = "C15"
 LEVEL = "exploration"
-TECHNIQUE = "differential testing of rope's scope tree / name tables / lookup against a reference resolver (ast, cross-checked with symtable) on generated and corpus sources"
+TECHNIQUE = "differential testing of rope's scope tree / name tables / lookup against a reference resolver (ast, cross-checked with symtable) on generated and corpus sources; coverage-guided stage (atheris driving the same strategy) in the thorough tier"
 RULE = (
     "texts from the G-SRC grammar (def/class/lambda/comprehension nestings, all parameter kinds, global, nonlocal, walrus, "
     "match captures, with/except/for targets, imports, decorators), stdlib statement soup and corpus files (every 5th quick / "
@@ -34,6 +34,7 @@ ASSUMPTIONS = [
 ]
 BUDGET = {"quick": (12000, 240), "thorough": (160000, 2700)}
 # thorough tier: rope modules instrumented for the coverage-guided (atheris) stage, see vlib/fuzzworker.py
+FUZZ_SECONDS = 180  # per process, thorough tier only
 FUZZ_MODULES = ["rope.base.pyscopes", "rope.base.pyobjectsdef", "rope.base.pynamesdef", "rope.base.builtins", "rope.base.codeanalyze"]
 
 FEATURE_PREDICATES = {
